@@ -101,6 +101,9 @@ func (w *Worker) Case(id string) bool {
 
 func main() {
 	log.SetOutput(io.Discard)
+	if os.Getenv("VERIF_LOGS") != "" { // development aid: let the server's own log lines through
+		log.SetOutput(os.Stderr)
+	}
 	if len(os.Args) < 2 {
 		fmt.Fprintln(os.Stderr, "usage: vengine check|worker|replay|selftest ...")
 		os.Exit(2)
